@@ -51,3 +51,512 @@ package state
 //@     v.offlineCount == old(v.offlineCount) - 1 &&
 //@     big(v.onlineStake) == old(big(v.onlineStake)) && big(v.onlineToken) == old(big(v.onlineToken)) && v.onlineCount == old(v.onlineCount)
 //@ ensures [val-unchanged] big(val.Stake) == old(big(val.Stake)) && big(val.Token) == old(big(val.Token))
+
+// ---------------------------------------------------------------------------------------------------------------
+// Statistics object of a StateDB (statedb_val.go). The cache `st.validatorsStat` (atomic.Value) holds a *ValidatorsStat
+// once loaded; New / NewVldReader load it at construction, so "loaded" is a constructor-established invariant.
+
+//@ spec func c08Stat(st: *StateDB) *ValidatorsStat = unbox(st.validatorsStat.v, *ValidatorsStat)
+//@ spec func c08StatLoaded(st: *StateDB) bool = hastype(st.validatorsStat.v, *ValidatorsStat) && c08Stat(st) != nil
+
+//@ func (*StateDB).getValidatorsStat props C08
+//@ panics none
+//@ requires st != nil && c08StatLoaded(st)
+//@ pure
+//@ ensures [cached] result0 == c08Stat(st) && result1 == nil
+
+// Under the "cache loaded" invariant the reload path of getValidatorsStat is dead: the call-site obligation
+// `…#call[(*StateDB).loadValidatorsStat#1].requires[stat-cache-loaded]` proves it (the contract is never used otherwise).
+//@ func (*StateDB).loadValidatorsStat props C08
+//@ nobody
+//@ requires [stat-cache-loaded] false
+//@ pure
+
+// ---------------------------------------------------------------------------------------------------------------
+// Clause 1 of C08: the statistics change by exactly the contribution of the record added / removed / replaced.
+// A bucket's six totals as one value; a record's contribution to a bucket; arithmetic on totals (counters are uint64: wrap64).
+
+//@ type C08Tot struct { onS, onT, onC, offS, offT, offC: int }
+//@ spec func c08Tot(b: *ValKindStat) C08Tot =
+//@     C08Tot{big(b.onlineStake), big(b.onlineToken), b.onlineCount, big(b.offlineStake), big(b.offlineToken), b.offlineCount}
+//@ spec func c08Zero() C08Tot = C08Tot{0, 0, 0, 0, 0, 0}
+//@ spec func c08Contrib(val: *Validator) C08Tot =
+//@     if val.Status == params.ValidatorOnline then C08Tot{big(val.Stake), big(val.Token), 1, 0, 0, 0} else C08Tot{0, 0, 0, big(val.Stake), big(val.Token), 1}
+// uint64 addition / subtraction of in-range operands (== wrap64 of the exact result, written without `mod` for the solver's sake)
+//@ spec func c08AddU64(a: int, b: int) int = if a + b < 2^64 then a + b else a + b - 2^64
+//@ spec func c08SubU64(a: int, b: int) int = if a - b >= 0 then a - b else a - b + 2^64
+//@ lemma [C08.u64-add-is-wrap] forall a: int, b: int :: 0 <= a && a < 2^64 && 0 <= b && b < 2^64 ==> c08AddU64(a, b) == wrap64(a + b)
+//@ lemma [C08.u64-sub-is-wrap] forall a: int, b: int :: 0 <= a && a < 2^64 && 0 <= b && b < 2^64 ==> c08SubU64(a, b) == wrap64(a - b)
+//@ spec func c08Add(a: C08Tot, b: C08Tot) C08Tot =
+//@     C08Tot{a.onS + b.onS, a.onT + b.onT, c08AddU64(a.onC, b.onC), a.offS + b.offS, a.offT + b.offT, c08AddU64(a.offC, b.offC)}
+//@ spec func c08Sub(a: C08Tot, b: C08Tot) C08Tot =
+//@     C08Tot{a.onS - b.onS, a.onT - b.onT, c08SubU64(a.onC, b.onC), a.offS - b.offS, a.offT - b.offT, c08SubU64(a.offC, b.offC)}
+//@ spec func c08Geq(a: C08Tot, b: C08Tot) bool =
+//@     a.onS >= b.onS && a.onT >= b.onT && a.onC >= b.onC && a.offS >= b.offS && a.offT >= b.offT && a.offC >= b.offC
+
+// The kind a role belongs to (statement: chamber = chancellors + senators, house = house members; kind 0 = all validators).
+//@ spec func c08KindOf(role: int) int = if role == params.RoleChancellor || role == params.RoleSenator then params.KindChamber else if role == params.RoleHouse then params.KindHouse else params.KindValidator
+//@ spec func c08RoleOK(role: int) bool = role == params.RoleChancellor || role == params.RoleSenator || role == params.RoleHouse
+// What a record contributes to the bucket of role r / of kind k.
+//@ spec func c08InRole(val: *Validator, r: int) C08Tot = if val.Role == r then c08Contrib(val) else c08Zero()
+//@ spec func c08InKind(val: *Validator, k: int) C08Tot = if k == params.KindValidator || k == c08KindOf(val.Role) then c08Contrib(val) else c08Zero()
+
+// The package-level table params.kinds as initialised (package initialisation is not modelled; nothing writes the table).
+//@ spec func c08KindsTable() bool =
+//@     in(params.RoleChancellor, params.kinds) && in(params.RoleSenator, params.kinds) && in(params.RoleHouse, params.kinds) &&
+//@     params.kinds[params.RoleChancellor] == params.KindChamber && params.kinds[params.RoleSenator] == params.KindChamber && params.kinds[params.RoleHouse] == params.KindHouse
+
+// Aliasing preconditions in linear size (the quadratic pairwise form made the SMT scripts exceed the engine's 4 MB limit).
+// `c08Slot` (a numbering of big-integer objects) and `c08Mark` (an allocation watermark) are uninterpreted WITNESSES:
+// a state satisfies the equations below for SOME numbering and watermark iff
+//   * the 24 counters of the statistics are non-nil and pairwise distinct (slots 1..24, all allocated below the watermark), and
+//   * a record's amounts are none of them (slot 0, or allocated at/after the watermark — e.g. freshly created records).
+// No postcondition depends on the witnesses, so the contracts hold for every state with that aliasing discipline.
+//@ spec func c08Slot(p: *big.Int) int
+//@ spec func c08Mark() int
+//@ spec func c08BucketWF(b: *ValKindStat, n: int) bool =
+//@     b != nil && c08Slot(b.onlineStake) == n + 1 && c08Slot(b.onlineToken) == n + 2 && c08Slot(b.offlineStake) == n + 3 && c08Slot(b.offlineToken) == n + 4 &&
+//@     b.onlineStake < c08Mark() && b.onlineToken < c08Mark() && b.offlineStake < c08Mark() && b.offlineToken < c08Mark()
+
+// The six buckets (raw map values; c08StatWF says the keys are present, so these are what `Kinds[k]` / `Roles[r]` return).
+//@ spec func c08K(s: *ValidatorsStat, k: int) *ValKindStat = mapval(s.Kinds)[k]
+//@ spec func c08R(s: *ValidatorsStat, r: int) *ValKindStat = mapval(s.Roles)[r]
+
+// Representation invariant of the statistics object: three kind buckets, three role buckets, all counters exist and are pairwise distinct.
+//@ spec func c08StatWF(s: *ValidatorsStat) bool =
+//@     s != nil && s.Kinds != nil && s.Roles != nil && c08Slot(nil) == 0 && c08Mark() <= alloc() &&
+//@     in(params.KindValidator, s.Kinds) && in(params.KindChamber, s.Kinds) && in(params.KindHouse, s.Kinds) &&
+//@     in(params.RoleChancellor, s.Roles) && in(params.RoleSenator, s.Roles) && in(params.RoleHouse, s.Roles) &&
+//@     c08BucketWF(c08K(s, 0), 0) && c08BucketWF(c08K(s, 1), 4) && c08BucketWF(c08K(s, 2), 8) &&
+//@     c08BucketWF(c08R(s, 1), 12) && c08BucketWF(c08R(s, 2), 16) && c08BucketWF(c08R(s, 3), 20)
+
+// A record's amounts exist and are not statistics counters.
+//@ spec func c08SepBig(p: *big.Int) bool = p != nil && (c08Slot(p) == 0 || p >= c08Mark())
+//@ spec func c08ValSep(val: *Validator) bool = c08SepBig(val.Stake) && c08SepBig(val.Token)
+
+//@ func (*StateDB).incrValidatorsStat props C08
+//@ panics none
+//@ requires st != nil && c08StatLoaded(st) && c08StatWF(c08Stat(st)) && c08KindsTable()
+//@ requires val != nil ==> c08RoleOK(val.Role) && c08ValSep(val)
+//@ let s = c08Stat(st)
+//@ let k0 = c08K(c08Stat(st), 0)
+//@ let k1 = c08K(c08Stat(st), 1)
+//@ let k2 = c08K(c08Stat(st), 2)
+//@ let r1 = c08R(c08Stat(st), 1)
+//@ let r2 = c08R(c08Stat(st), 2)
+//@ let r3 = c08R(c08Stat(st), 3)
+//@ modifies st.validatorsStatModified,
+//@     big(k0.onlineStake), big(k0.onlineToken), k0.onlineCount, big(k0.offlineStake), big(k0.offlineToken), k0.offlineCount,
+//@     big(k1.onlineStake), big(k1.onlineToken), k1.onlineCount, big(k1.offlineStake), big(k1.offlineToken), k1.offlineCount,
+//@     big(k2.onlineStake), big(k2.onlineToken), k2.onlineCount, big(k2.offlineStake), big(k2.offlineToken), k2.offlineCount,
+//@     big(r1.onlineStake), big(r1.onlineToken), r1.onlineCount, big(r1.offlineStake), big(r1.offlineToken), r1.offlineCount,
+//@     big(r2.onlineStake), big(r2.onlineToken), r2.onlineCount, big(r2.offlineStake), big(r2.offlineToken), r2.offlineCount,
+//@     big(r3.onlineStake), big(r3.onlineToken), r3.onlineCount, big(r3.offlineStake), big(r3.offlineToken), r3.offlineCount
+//@ ensures [kind-all]      val != nil ==> c08Tot(k0) == c08Add(old(c08Tot(k0)), old(c08InKind(val, params.KindValidator)))
+//@ ensures [kind-chamber]  val != nil ==> c08Tot(k1) == c08Add(old(c08Tot(k1)), old(c08InKind(val, params.KindChamber)))
+//@ ensures [kind-house]    val != nil ==> c08Tot(k2) == c08Add(old(c08Tot(k2)), old(c08InKind(val, params.KindHouse)))
+//@ ensures [role-chancellor] val != nil ==> c08Tot(r1) == c08Add(old(c08Tot(r1)), old(c08InRole(val, params.RoleChancellor)))
+//@ ensures [role-senator]  val != nil ==> c08Tot(r2) == c08Add(old(c08Tot(r2)), old(c08InRole(val, params.RoleSenator)))
+//@ ensures [role-house]    val != nil ==> c08Tot(r3) == c08Add(old(c08Tot(r3)), old(c08InRole(val, params.RoleHouse)))
+//@ ensures [nil-noop]      val == nil ==> c08Tot(k0) == old(c08Tot(k0)) && c08Tot(k1) == old(c08Tot(k1)) && c08Tot(k2) == old(c08Tot(k2)) &&
+//@                                        c08Tot(r1) == old(c08Tot(r1)) && c08Tot(r2) == old(c08Tot(r2)) && c08Tot(r3) == old(c08Tot(r3))
+//@ ensures [val-unchanged] val != nil ==> big(val.Stake) == old(big(val.Stake)) && big(val.Token) == old(big(val.Token))
+//@ ensures [marked]        val != nil ==> st.validatorsStatModified
+
+// The buckets a record is counted in hold at least its contribution (true whenever statistics == sum of the records
+// and val is one of the records): then the subtraction is exact, i.e. the silent clamps and the counter wrap are unreachable.
+//@ spec func c08Counted(s: *ValidatorsStat, val: *Validator) bool =
+//@     (val.Role == params.RoleChancellor ==> c08Geq(c08Tot(c08R(s, 1)), c08Contrib(val))) &&
+//@     (val.Role == params.RoleSenator ==> c08Geq(c08Tot(c08R(s, 2)), c08Contrib(val))) &&
+//@     (val.Role == params.RoleHouse ==> c08Geq(c08Tot(c08R(s, 3)), c08Contrib(val))) &&
+//@     (c08KindOf(val.Role) == params.KindChamber ==> c08Geq(c08Tot(c08K(s, 1)), c08Contrib(val))) &&
+//@     (c08KindOf(val.Role) == params.KindHouse ==> c08Geq(c08Tot(c08K(s, 2)), c08Contrib(val))) &&
+//@     c08Geq(c08Tot(c08K(s, 0)), c08Contrib(val))
+
+//@ func (*StateDB).decrValidatorsStat props C08
+//@ panics none
+//@ requires st != nil && c08StatLoaded(st) && c08StatWF(c08Stat(st)) && c08KindsTable()
+//@ requires val != nil ==> c08RoleOK(val.Role) && c08ValSep(val) && c08Counted(c08Stat(st), val)
+//@ let k0 = c08K(c08Stat(st), 0)
+//@ let k1 = c08K(c08Stat(st), 1)
+//@ let k2 = c08K(c08Stat(st), 2)
+//@ let r1 = c08R(c08Stat(st), 1)
+//@ let r2 = c08R(c08Stat(st), 2)
+//@ let r3 = c08R(c08Stat(st), 3)
+//@ modifies st.validatorsStatModified,
+//@     big(k0.onlineStake), big(k0.onlineToken), k0.onlineCount, big(k0.offlineStake), big(k0.offlineToken), k0.offlineCount,
+//@     big(k1.onlineStake), big(k1.onlineToken), k1.onlineCount, big(k1.offlineStake), big(k1.offlineToken), k1.offlineCount,
+//@     big(k2.onlineStake), big(k2.onlineToken), k2.onlineCount, big(k2.offlineStake), big(k2.offlineToken), k2.offlineCount,
+//@     big(r1.onlineStake), big(r1.onlineToken), r1.onlineCount, big(r1.offlineStake), big(r1.offlineToken), r1.offlineCount,
+//@     big(r2.onlineStake), big(r2.onlineToken), r2.onlineCount, big(r2.offlineStake), big(r2.offlineToken), r2.offlineCount,
+//@     big(r3.onlineStake), big(r3.onlineToken), r3.onlineCount, big(r3.offlineStake), big(r3.offlineToken), r3.offlineCount
+//@ ensures [kind-all]      val != nil ==> c08Tot(k0) == c08Sub(old(c08Tot(k0)), old(c08InKind(val, params.KindValidator)))
+//@ ensures [kind-chamber]  val != nil ==> c08Tot(k1) == c08Sub(old(c08Tot(k1)), old(c08InKind(val, params.KindChamber)))
+//@ ensures [kind-house]    val != nil ==> c08Tot(k2) == c08Sub(old(c08Tot(k2)), old(c08InKind(val, params.KindHouse)))
+//@ ensures [role-chancellor] val != nil ==> c08Tot(r1) == c08Sub(old(c08Tot(r1)), old(c08InRole(val, params.RoleChancellor)))
+//@ ensures [role-senator]  val != nil ==> c08Tot(r2) == c08Sub(old(c08Tot(r2)), old(c08InRole(val, params.RoleSenator)))
+//@ ensures [role-house]    val != nil ==> c08Tot(r3) == c08Sub(old(c08Tot(r3)), old(c08InRole(val, params.RoleHouse)))
+//@ ensures [nil-noop]      val == nil ==> c08Tot(k0) == old(c08Tot(k0)) && c08Tot(k1) == old(c08Tot(k1)) && c08Tot(k2) == old(c08Tot(k2)) &&
+//@                                        c08Tot(r1) == old(c08Tot(r1)) && c08Tot(r2) == old(c08Tot(r2)) && c08Tot(r3) == old(c08Tot(r3))
+//@ ensures [val-unchanged] val != nil ==> big(val.Stake) == old(big(val.Stake)) && big(val.Token) == old(big(val.Token))
+//@ ensures [marked]        val != nil ==> st.validatorsStatModified
+
+// ---------------------------------------------------------------------------------------------------------------
+// StakeEqual decides whether two records contribute the same amounts to the same buckets (then the statistics need no update).
+//@ func (Validator).StakeEqual props C08
+//@ panics none
+//@ requires val != nil ==> v.Stake != nil && v.Token != nil && val.Stake != nil && val.Token != nil
+//@ pure
+//@ ensures [same-contribution] result <==> (val != nil && v.Role == val.Role && v.Status == val.Status &&
+//@                                          big(v.Stake) == big(val.Stake) && big(v.Token) == big(val.Token))
+
+// The journal (C09's subject) is only framed here: appending an entry touches the journal and nothing else.
+// Every implementation of journalEntry.dirtied returns a stored pointer or nil (journal.go): trusted pure.
+//@ func (journalEntry).dirtied props C08
+//@ trusted
+//@ pure
+
+//@ func (*journal).append props C08
+//@ panics none
+//@ requires j != nil && j.dirties != nil
+//@ modifies j.entries, elems(j.entries), mapof(j.dirties)
+//@ ensures [appended] len(j.entries) == old(len(j.entries)) + 1      // (the parameter is called `entry`, a contract keyword: its value cannot be named, engine_requests/C08.md R2)
+
+// ---------------------------------------------------------------------------------------------------------------
+// The main address of a record: a function of its consensus public key (crypto is trusted to be a deterministic,
+// effect-free function of the key bytes), cached in `consAddr`.
+//@ spec func c08PubAddr(a: seq[byte], off: int, n: int) common.Address
+//@ spec func c08AddrOf(val: *Validator) common.Address = c08PubAddr(elems(val.MainPubKey), off(val.MainPubKey), len(val.MainPubKey))
+//@ spec func c08AddrCacheOK(val: *Validator) bool =
+//@     val.consAddr.v != nil ==> hastype(val.consAddr.v, common.Address) && unbox(val.consAddr.v, common.Address) == c08AddrOf(val)
+
+//@ func PubToAddress props C08
+//@ trusted
+//@ pure
+//@ ensures result == c08PubAddr(elems(pubkey), off(pubkey), len(pubkey))
+
+//@ func (*Validator).MainAddress props C08
+//@ panics none
+//@ requires v != nil && c08AddrCacheOK(v)
+//@ modifies v.consAddr
+//@ ensures [address] result == c08AddrOf(v)
+//@ ensures [cache-coherent] c08AddrCacheOK(v)
+
+// ---------------------------------------------------------------------------------------------------------------
+// Clause 3 of C08: the live validator objects (`validatorObjects`, a sync.Map address -> *Validator) and the address index
+// (`validatorIndex.data`, a sync.Map used as a set). Model of sync.Map: /verif/specs/stdlib/c08_sync.spec; keys are boxed addresses.
+// The empty key set of the sync.Map model (c08_sync.spec) has no member.
+//@ axiom [c08.empty-set] forall k: int :: { c08smEmpty()[k] } !c08smEmpty()[k]
+//@ spec func c08HasObj(st: *StateDB, a: common.Address) bool = in(box(a), st.validatorObjects.dirty)
+//@ spec func c08Obj(st: *StateDB, a: common.Address) *Validator = unbox(mapval(st.validatorObjects.dirty)[box(a)], *Validator)
+//@ spec func c08Indexed(ix: *ValidatorIndex, a: common.Address) bool = in(box(a), ix.data.dirty)
+
+//@ func (*ValidatorIndex).Add props C08
+//@ panics none
+//@ requires index != nil
+//@ modifies index.data, mapof(index.data.dirty)
+//@ ensures [added] c08Indexed(index, mainAddress)
+//@ ensures [others] old(index.data.dirty) != nil ==> index.data.dirty == old(index.data.dirty) && mapdom(index.data.dirty) == store(old(mapdom(index.data.dirty)), box(mainAddress), true)
+//@ ensures [first]  old(index.data.dirty) == nil ==> fresh(index.data.dirty) && mapdom(index.data.dirty) == store(c08smEmpty(), box(mainAddress), true)
+
+//@ func (*ValidatorIndex).Delete props C08
+//@ panics none
+//@ requires index != nil
+//@ modifies index.data, mapof(index.data.dirty)
+//@ ensures [removed] !c08Indexed(index, mainAddress)
+//@ ensures [others] index.data.dirty == old(index.data.dirty) && mapdom(index.data.dirty) == store(old(mapdom(index.data.dirty)), box(mainAddress), false)
+
+// Two distinct sync.Maps never share their internal map (model identity, c08_sync.spec).
+//@ spec func c08MapsSep(st: *StateDB) bool =
+//@     st.validatorIndex != nil && (st.validatorObjects.dirty == nil || st.validatorObjects.dirty != st.validatorIndex.data.dirty)
+
+// setValidator: the record is stored under its main address and that address is in the index; no other key of either map changes.
+//@ func (*StateDB).setValidator props C08
+//@ panics none
+//@ requires st != nil && val != nil && c08MapsSep(st) && c08AddrCacheOK(val)
+//@ modifies val.consAddr, st.validatorObjects, mapof(st.validatorObjects.dirty), st.validatorIndex.data, mapof(st.validatorIndex.data.dirty)
+//@ ensures [stored]  c08HasObj(st, c08AddrOf(val)) && c08Obj(st, c08AddrOf(val)) == val
+//@ ensures [indexed] c08Indexed(st.validatorIndex, c08AddrOf(val))
+//@ ensures [other-objects] old(st.validatorObjects.dirty) != nil ==> st.validatorObjects.dirty == old(st.validatorObjects.dirty) &&
+//@             mapdom(st.validatorObjects.dirty) == store(old(mapdom(st.validatorObjects.dirty)), box(c08AddrOf(val)), true) &&
+//@             mapval(st.validatorObjects.dirty) == store(old(mapval(st.validatorObjects.dirty)), box(c08AddrOf(val)), box(val))
+//@ ensures [first-object] old(st.validatorObjects.dirty) == nil ==> fresh(st.validatorObjects.dirty) &&
+//@             mapdom(st.validatorObjects.dirty) == store(c08smEmpty(), box(c08AddrOf(val)), true)
+//@ ensures [other-index] old(st.validatorIndex.data.dirty) != nil ==> st.validatorIndex.data.dirty == old(st.validatorIndex.data.dirty) &&
+//@             mapdom(st.validatorIndex.data.dirty) == store(old(mapdom(st.validatorIndex.data.dirty)), box(c08AddrOf(val)), true)
+//@ ensures [first-index] old(st.validatorIndex.data.dirty) == nil ==> fresh(st.validatorIndex.data.dirty) &&
+//@             mapdom(st.validatorIndex.data.dirty) == store(c08smEmpty(), box(c08AddrOf(val)), true)
+//@ ensures [maps-sep] c08MapsSep(st)
+//@ ensures [cache-coherent] c08AddrCacheOK(val)
+
+// ---------------------------------------------------------------------------------------------------------------
+// Preconditions shared by the validator mutators: the state's statistics are loaded and well formed, the journal exists.
+//@ spec func c08StateWF(st: *StateDB) bool =
+//@     st != nil && c08StatLoaded(st) && c08StatWF(c08Stat(st)) && c08KindsTable() && c08MapsSep(st) &&
+//@     st.validatorJournal != nil && st.validatorJournal.dirties != nil
+// A record as the mutators expect it: valid role, amounts present and separate from the statistics, coherent address cache.
+//@ spec func c08RecOK(st: *StateDB, val: *Validator) bool =
+//@     c08RoleOK(val.Role) && c08ValSep(val) && c08AddrCacheOK(val)
+
+// UpdateValidator(newVal, oldVal): replaces the record stored under the common main address; every bucket moves by exactly
+// contrib(newVal) - contrib(oldVal) (oldVal being what the statistics currently count for that validator).
+//@ func (*StateDB).UpdateValidator props C08
+//@ panics none
+//@ requires c08StateWF(st)
+//@ requires newVal != nil ==> c08RecOK(st, newVal)
+//@ requires oldVal != nil ==> c08RecOK(st, oldVal) && c08Counted(c08Stat(st), oldVal)
+//@ let k0 = c08K(c08Stat(st), 0)
+//@ let k1 = c08K(c08Stat(st), 1)
+//@ let k2 = c08K(c08Stat(st), 2)
+//@ let r1 = c08R(c08Stat(st), 1)
+//@ let r2 = c08R(c08Stat(st), 2)
+//@ let r3 = c08R(c08Stat(st), 3)
+//@ modifies st.validatorsStatModified, newVal.consAddr, oldVal.consAddr,
+//@     st.validatorObjects, mapof(st.validatorObjects.dirty), st.validatorIndex.data, mapof(st.validatorIndex.data.dirty),
+//@     st.validatorJournal.entries, elems(st.validatorJournal.entries), mapof(st.validatorJournal.dirties),
+//@     big(k0.onlineStake), big(k0.onlineToken), k0.onlineCount, big(k0.offlineStake), big(k0.offlineToken), k0.offlineCount,
+//@     big(k1.onlineStake), big(k1.onlineToken), k1.onlineCount, big(k1.offlineStake), big(k1.offlineToken), k1.offlineCount,
+//@     big(k2.onlineStake), big(k2.onlineToken), k2.onlineCount, big(k2.offlineStake), big(k2.offlineToken), k2.offlineCount,
+//@     big(r1.onlineStake), big(r1.onlineToken), r1.onlineCount, big(r1.offlineStake), big(r1.offlineToken), r1.offlineCount,
+//@     big(r2.onlineStake), big(r2.onlineToken), r2.onlineCount, big(r2.offlineStake), big(r2.offlineToken), r2.offlineCount,
+//@     big(r3.onlineStake), big(r3.onlineToken), r3.onlineCount, big(r3.offlineStake), big(r3.offlineToken), r3.offlineCount
+//@ ensures [accepts] result <==> (newVal != nil && oldVal != nil && c08AddrOf(newVal) == c08AddrOf(oldVal))
+//@ ensures [kind-all]      result ==> c08Tot(k0) == c08Add(c08Sub(old(c08Tot(k0)), old(c08InKind(oldVal, params.KindValidator))), old(c08InKind(newVal, params.KindValidator)))
+//@ ensures [kind-chamber]  result ==> c08Tot(k1) == c08Add(c08Sub(old(c08Tot(k1)), old(c08InKind(oldVal, params.KindChamber))), old(c08InKind(newVal, params.KindChamber)))
+//@ ensures [kind-house]    result ==> c08Tot(k2) == c08Add(c08Sub(old(c08Tot(k2)), old(c08InKind(oldVal, params.KindHouse))), old(c08InKind(newVal, params.KindHouse)))
+//@ ensures [role-chancellor] result ==> c08Tot(r1) == c08Add(c08Sub(old(c08Tot(r1)), old(c08InRole(oldVal, params.RoleChancellor))), old(c08InRole(newVal, params.RoleChancellor)))
+//@ ensures [role-senator]  result ==> c08Tot(r2) == c08Add(c08Sub(old(c08Tot(r2)), old(c08InRole(oldVal, params.RoleSenator))), old(c08InRole(newVal, params.RoleSenator)))
+//@ ensures [role-house]    result ==> c08Tot(r3) == c08Add(c08Sub(old(c08Tot(r3)), old(c08InRole(oldVal, params.RoleHouse))), old(c08InRole(newVal, params.RoleHouse)))
+//@ ensures [rejected-noop] !result ==> c08Tot(k0) == old(c08Tot(k0)) && c08Tot(k1) == old(c08Tot(k1)) && c08Tot(k2) == old(c08Tot(k2)) &&
+//@                                     c08Tot(r1) == old(c08Tot(r1)) && c08Tot(r2) == old(c08Tot(r2)) && c08Tot(r3) == old(c08Tot(r3)) &&
+//@                                     mapdom(st.validatorObjects.dirty) == old(mapdom(st.validatorObjects.dirty)) && st.validatorObjects.dirty == old(st.validatorObjects.dirty)
+//@ ensures [stored]  result ==> c08HasObj(st, c08AddrOf(newVal)) && c08Obj(st, c08AddrOf(newVal)) == newVal
+//@ ensures [indexed] result ==> c08Indexed(st.validatorIndex, c08AddrOf(newVal))
+//@ ensures [journalled] result ==> len(st.validatorJournal.entries) == old(len(st.validatorJournal.entries)) + 1
+//@ ensures [wf] c08StateWF(st)
+
+// ---------------------------------------------------------------------------------------------------------------
+// NewValidator: every field from its argument, six fresh and pairwise distinct amounts, an empty fresh delegation list.
+//@ func NewValidator props C08
+//@ panics none
+//@ requires token != nil && stake != nil
+//@ modifies nothing
+//@ ensures [fresh] result != nil && fresh(result) && fresh(result.Token) && fresh(result.Stake) && fresh(result.SelfToken) && fresh(result.SelfStake) &&
+//@     fresh(result.RewardsDistributable) && fresh(result.RewardsTotal) && fresh(result.Delegations)
+//@ ensures [distinct] result.Token != result.Stake && result.Token != result.SelfToken && result.Token != result.SelfStake && result.Token != result.RewardsDistributable &&
+//@     result.Token != result.RewardsTotal && result.Stake != result.SelfToken && result.Stake != result.SelfStake && result.Stake != result.RewardsDistributable &&
+//@     result.Stake != result.RewardsTotal && result.SelfToken != result.SelfStake && result.SelfToken != result.RewardsDistributable && result.SelfToken != result.RewardsTotal &&
+//@     result.SelfStake != result.RewardsDistributable && result.SelfStake != result.RewardsTotal && result.RewardsDistributable != result.RewardsTotal
+//@ ensures [identity] result.Name == name && result.OperatorAddress == operatorAddress && result.Coinbase == coinbase && result.Role == role && result.Status == status &&
+//@     result.MainPubKey == mainPubKey && result.BlsPubKey == blsPubKey &&
+//@     result.AcceptDelegation == acceptDelegation && result.CommissionRate == commissionRate && result.RiskObligation == riskObligation
+//@ ensures [amounts] big(result.Token) == big(token) && big(result.SelfToken) == big(token) && big(result.Stake) == big(stake) && big(result.SelfStake) == big(stake) &&
+//@     big(result.RewardsDistributable) == 0 && big(result.RewardsTotal) == 0
+//@ ensures [zeroes] !result.Expelled && result.ExpelExpired == 0 && result.LastInactive == 0 && result.RewardsLastSettled == 0 && !result.deleted &&
+//@     result.consAddr.v == nil && len(result.Delegations) == 0 && result.Ext.Version == 0 && len(result.Ext.Data) == 0 && result.Ext.extV1.LastActive == 0
+
+// getValidator reads the trie and decodes RLP on a cache miss (C13 / C14 territory): trusted, thin. It returns the live,
+// non-deleted record of the address, possibly after caching a freshly decoded one with setValidator; when it returns nil
+// neither map has changed.
+//@ func (*StateDB).getValidator props C08
+//@ trusted
+//@ requires st != nil
+//@ modifies st.dbErr, st.validatorObjects, mapof(st.validatorObjects.dirty), st.validatorIndex.data, mapof(st.validatorIndex.data.dirty)
+//@ ensures result == nil ==> st.validatorObjects.dirty == old(st.validatorObjects.dirty) && mapdom(st.validatorObjects.dirty) == old(mapdom(st.validatorObjects.dirty)) &&
+//@     mapval(st.validatorObjects.dirty) == old(mapval(st.validatorObjects.dirty)) &&
+//@     st.validatorIndex.data.dirty == old(st.validatorIndex.data.dirty) && mapdom(st.validatorIndex.data.dirty) == old(mapdom(st.validatorIndex.data.dirty))
+//@ ensures result != nil ==> !result.deleted && c08HasObj(st, mainAddress) && c08Obj(st, mainAddress) == result
+//@ ensures old(c08MapsSep(st)) ==> c08MapsSep(st)
+
+// CreateValidator: when the address has no live record, a fresh record with the given amounts is stored, indexed, journalled,
+// and every bucket grows by exactly its contribution; otherwise nothing is counted.
+//@ func (*StateDB).CreateValidator props C08
+//@ panics none
+//@ requires c08StateWF(st) && token != nil && stake != nil && c08RoleOK(role)
+//@ let k0 = c08K(c08Stat(st), 0)
+//@ let k1 = c08K(c08Stat(st), 1)
+//@ let k2 = c08K(c08Stat(st), 2)
+//@ let r1 = c08R(c08Stat(st), 1)
+//@ let r2 = c08R(c08Stat(st), 2)
+//@ let r3 = c08R(c08Stat(st), 3)
+//@ modifies st.validatorsStatModified, st.dbErr,
+//@     st.validatorObjects, mapof(st.validatorObjects.dirty), st.validatorIndex.data, mapof(st.validatorIndex.data.dirty),
+//@     st.validatorJournal.entries, elems(st.validatorJournal.entries), mapof(st.validatorJournal.dirties),
+//@     big(k0.onlineStake), big(k0.onlineToken), k0.onlineCount, big(k0.offlineStake), big(k0.offlineToken), k0.offlineCount,
+//@     big(k1.onlineStake), big(k1.onlineToken), k1.onlineCount, big(k1.offlineStake), big(k1.offlineToken), k1.offlineCount,
+//@     big(k2.onlineStake), big(k2.onlineToken), k2.onlineCount, big(k2.offlineStake), big(k2.offlineToken), k2.offlineCount,
+//@     big(r1.onlineStake), big(r1.onlineToken), r1.onlineCount, big(r1.offlineStake), big(r1.offlineToken), r1.offlineCount,
+//@     big(r2.onlineStake), big(r2.onlineToken), r2.onlineCount, big(r2.offlineStake), big(r2.offlineToken), r2.offlineCount,
+//@     big(r3.onlineStake), big(r3.onlineToken), r3.onlineCount, big(r3.offlineStake), big(r3.offlineToken), r3.offlineCount
+//@ ensures [record] newVal != nil ==> fresh(newVal) && newVal.Role == role && newVal.Status == status && big(newVal.Token) == old(big(token)) && big(newVal.Stake) == old(big(stake)) &&
+//@     big(newVal.SelfToken) == old(big(token)) && big(newVal.SelfStake) == old(big(stake)) && len(newVal.Delegations) == 0 && !newVal.deleted
+//@ ensures [kind-all]      newVal != nil ==> c08Tot(k0) == c08Add(old(c08Tot(k0)), c08InKind(newVal, params.KindValidator))
+//@ ensures [kind-chamber]  newVal != nil ==> c08Tot(k1) == c08Add(old(c08Tot(k1)), c08InKind(newVal, params.KindChamber))
+//@ ensures [kind-house]    newVal != nil ==> c08Tot(k2) == c08Add(old(c08Tot(k2)), c08InKind(newVal, params.KindHouse))
+//@ ensures [role-chancellor] newVal != nil ==> c08Tot(r1) == c08Add(old(c08Tot(r1)), c08InRole(newVal, params.RoleChancellor))
+//@ ensures [role-senator]  newVal != nil ==> c08Tot(r2) == c08Add(old(c08Tot(r2)), c08InRole(newVal, params.RoleSenator))
+//@ ensures [role-house]    newVal != nil ==> c08Tot(r3) == c08Add(old(c08Tot(r3)), c08InRole(newVal, params.RoleHouse))
+//@ ensures [exists-noop]   newVal == nil ==> c08Tot(k0) == old(c08Tot(k0)) && c08Tot(k1) == old(c08Tot(k1)) && c08Tot(k2) == old(c08Tot(k2)) &&
+//@                                          c08Tot(r1) == old(c08Tot(r1)) && c08Tot(r2) == old(c08Tot(r2)) && c08Tot(r3) == old(c08Tot(r3))
+//@ ensures [stored]  newVal != nil ==> c08HasObj(st, c08AddrOf(newVal)) && c08Obj(st, c08AddrOf(newVal)) == newVal
+//@ ensures [indexed] newVal != nil ==> c08Indexed(st.validatorIndex, c08AddrOf(newVal))
+//@ ensures [journalled] newVal != nil ==> len(st.validatorJournal.entries) == old(len(st.validatorJournal.entries)) + 1
+//@ ensures [wf] c08StateWF(st)
+
+// ---------------------------------------------------------------------------------------------------------------
+// Removal. `c08Exists`: a live record that is not marked deleted — "the existing validators" of the statement.
+//@ spec func c08ObjTyped(st: *StateDB, a: common.Address) bool =
+//@     c08HasObj(st, a) ==> hastype(mapval(st.validatorObjects.dirty)[box(a)], *Validator) && c08Obj(st, a) != nil
+//@ spec func c08Exists(st: *StateDB, a: common.Address) bool = c08HasObj(st, a) && !c08Obj(st, a).deleted
+
+// RemoveValidator(a): the record stops existing and every bucket shrinks by exactly its contribution.
+// The statement demands "by its contribution IF IT EXISTED": for a record already marked deleted nothing may be subtracted.
+// The code subtracts unconditionally; that case is recorded in /verif/findings_proposed/C08.json (remove-twice) and the
+// clauses are split: proved for an existing record, pending for a deleted one.
+//@ func (*StateDB).RemoveValidator props C08
+//@ panics none
+//@ requires c08StateWF(st) && c08ObjTyped(st, mainAddress)
+//@ requires c08HasObj(st, mainAddress) ==> c08RecOK(st, c08Obj(st, mainAddress)) && c08Counted(c08Stat(st), c08Obj(st, mainAddress))
+//@ let val = c08Obj(st, mainAddress)
+//@ let k0 = c08K(c08Stat(st), 0)
+//@ let k1 = c08K(c08Stat(st), 1)
+//@ let k2 = c08K(c08Stat(st), 2)
+//@ let r1 = c08R(c08Stat(st), 1)
+//@ let r2 = c08R(c08Stat(st), 2)
+//@ let r3 = c08R(c08Stat(st), 3)
+//@ modifies st.validatorsStatModified, val.deleted,
+//@     st.validatorJournal.entries, elems(st.validatorJournal.entries), mapof(st.validatorJournal.dirties),
+//@     big(k0.onlineStake), big(k0.onlineToken), k0.onlineCount, big(k0.offlineStake), big(k0.offlineToken), k0.offlineCount,
+//@     big(k1.onlineStake), big(k1.onlineToken), k1.onlineCount, big(k1.offlineStake), big(k1.offlineToken), k1.offlineCount,
+//@     big(k2.onlineStake), big(k2.onlineToken), k2.onlineCount, big(k2.offlineStake), big(k2.offlineToken), k2.offlineCount,
+//@     big(r1.onlineStake), big(r1.onlineToken), r1.onlineCount, big(r1.offlineStake), big(r1.offlineToken), r1.offlineCount,
+//@     big(r2.onlineStake), big(r2.onlineToken), r2.onlineCount, big(r2.offlineStake), big(r2.offlineToken), r2.offlineCount,
+//@     big(r3.onlineStake), big(r3.onlineToken), r3.onlineCount, big(r3.offlineStake), big(r3.offlineToken), r3.offlineCount
+//@ ensures [found] result <==> old(c08HasObj(st, mainAddress))
+//@ ensures [gone]  !c08Exists(st, mainAddress)
+//@ ensures [kind-all]      result && !old(val.deleted) ==> c08Tot(k0) == c08Sub(old(c08Tot(k0)), old(c08InKind(val, params.KindValidator)))
+//@ ensures [kind-chamber]  result && !old(val.deleted) ==> c08Tot(k1) == c08Sub(old(c08Tot(k1)), old(c08InKind(val, params.KindChamber)))
+//@ ensures [kind-house]    result && !old(val.deleted) ==> c08Tot(k2) == c08Sub(old(c08Tot(k2)), old(c08InKind(val, params.KindHouse)))
+//@ ensures [role-chancellor] result && !old(val.deleted) ==> c08Tot(r1) == c08Sub(old(c08Tot(r1)), old(c08InRole(val, params.RoleChancellor)))
+//@ ensures [role-senator]  result && !old(val.deleted) ==> c08Tot(r2) == c08Sub(old(c08Tot(r2)), old(c08InRole(val, params.RoleSenator)))
+//@ ensures [role-house]    result && !old(val.deleted) ==> c08Tot(r3) == c08Sub(old(c08Tot(r3)), old(c08InRole(val, params.RoleHouse)))
+//@ // PENDING-FINDING: (findings_proposed/C08.json "remove-twice") removing a record that is already marked deleted must not change the statistics:
+//@ // ensures [already-deleted-noop] result && old(val.deleted) ==> c08Tot(k0) == old(c08Tot(k0)) && c08Tot(k1) == old(c08Tot(k1)) && c08Tot(k2) == old(c08Tot(k2)) && c08Tot(r1) == old(c08Tot(r1)) && c08Tot(r2) == old(c08Tot(r2)) && c08Tot(r3) == old(c08Tot(r3))
+//@ ensures [absent-noop]   !result ==> c08Tot(k0) == old(c08Tot(k0)) && c08Tot(k1) == old(c08Tot(k1)) && c08Tot(k2) == old(c08Tot(k2)) &&
+//@                                     c08Tot(r1) == old(c08Tot(r1)) && c08Tot(r2) == old(c08Tot(r2)) && c08Tot(r3) == old(c08Tot(r3))
+//@ ensures [journalled] result ==> len(st.validatorJournal.entries) == old(len(st.validatorJournal.entries)) + 1
+
+// The trie behind `valTrie` is an interface outside the heap model (C13): trusted frame — only the error memo changes here.
+//@ func (*StateDB).deleteStakingData props C08
+//@ trusted
+//@ requires st != nil
+//@ modifies st.dbErr
+
+// deleteValidator (called by IntermediateRoot for records marked deleted or emptied): the address leaves the index, the record
+// stops existing, every bucket shrinks by the contribution of a record that still existed. For a record already marked deleted
+// by RemoveValidator the statistics were reduced then; the code reduces them again (findings_proposed/C08.json "remove-twice").
+//@ func (*StateDB).deleteValidator props C08
+//@ panics none
+//@ requires c08StateWF(st) && val != nil && c08RecOK(st, val) && c08Counted(c08Stat(st), val)
+//@ let k0 = c08K(c08Stat(st), 0)
+//@ let k1 = c08K(c08Stat(st), 1)
+//@ let k2 = c08K(c08Stat(st), 2)
+//@ let r1 = c08R(c08Stat(st), 1)
+//@ let r2 = c08R(c08Stat(st), 2)
+//@ let r3 = c08R(c08Stat(st), 3)
+//@ modifies st.validatorsStatModified, st.dbErr, val.deleted, val.consAddr, st.validatorIndex.data, mapof(st.validatorIndex.data.dirty),
+//@     big(k0.onlineStake), big(k0.onlineToken), k0.onlineCount, big(k0.offlineStake), big(k0.offlineToken), k0.offlineCount,
+//@     big(k1.onlineStake), big(k1.onlineToken), k1.onlineCount, big(k1.offlineStake), big(k1.offlineToken), k1.offlineCount,
+//@     big(k2.onlineStake), big(k2.onlineToken), k2.onlineCount, big(k2.offlineStake), big(k2.offlineToken), k2.offlineCount,
+//@     big(r1.onlineStake), big(r1.onlineToken), r1.onlineCount, big(r1.offlineStake), big(r1.offlineToken), r1.offlineCount,
+//@     big(r2.onlineStake), big(r2.onlineToken), r2.onlineCount, big(r2.offlineStake), big(r2.offlineToken), r2.offlineCount,
+//@     big(r3.onlineStake), big(r3.onlineToken), r3.onlineCount, big(r3.offlineStake), big(r3.offlineToken), r3.offlineCount
+//@ ensures [marked-deleted] val.deleted
+//@ ensures [unindexed] !c08Indexed(st.validatorIndex, c08AddrOf(val))
+//@ ensures [other-index] st.validatorIndex.data.dirty == old(st.validatorIndex.data.dirty) &&
+//@             mapdom(st.validatorIndex.data.dirty) == store(old(mapdom(st.validatorIndex.data.dirty)), box(c08AddrOf(val)), false)
+//@ ensures [kind-all]      !old(val.deleted) ==> c08Tot(k0) == c08Sub(old(c08Tot(k0)), old(c08InKind(val, params.KindValidator)))
+//@ ensures [kind-chamber]  !old(val.deleted) ==> c08Tot(k1) == c08Sub(old(c08Tot(k1)), old(c08InKind(val, params.KindChamber)))
+//@ ensures [kind-house]    !old(val.deleted) ==> c08Tot(k2) == c08Sub(old(c08Tot(k2)), old(c08InKind(val, params.KindHouse)))
+//@ ensures [role-chancellor] !old(val.deleted) ==> c08Tot(r1) == c08Sub(old(c08Tot(r1)), old(c08InRole(val, params.RoleChancellor)))
+//@ ensures [role-senator]  !old(val.deleted) ==> c08Tot(r2) == c08Sub(old(c08Tot(r2)), old(c08InRole(val, params.RoleSenator)))
+//@ ensures [role-house]    !old(val.deleted) ==> c08Tot(r3) == c08Sub(old(c08Tot(r3)), old(c08InRole(val, params.RoleHouse)))
+//@ // PENDING-FINDING: (findings_proposed/C08.json "remove-twice") a record already marked deleted was un-counted by RemoveValidator; deleting it must not subtract again:
+//@ // ensures [already-deleted-noop] old(val.deleted) ==> c08Tot(k0) == old(c08Tot(k0)) && c08Tot(k1) == old(c08Tot(k1)) && c08Tot(k2) == old(c08Tot(k2)) && c08Tot(r1) == old(c08Tot(r1)) && c08Tot(r2) == old(c08Tot(r2)) && c08Tot(r3) == old(c08Tot(r3))
+
+// ---------------------------------------------------------------------------------------------------------------
+// Journal reverts: revert(op) is op's inverse on statistics, live objects and index.
+
+// revert of a creation: the created record (the live object at the address) is un-counted and leaves both maps.
+//@ func (validatorCreateChange).revert props C08
+//@ panics none
+//@ requires c08StateWF(s) && ch.address != nil && c08HasObj(s, *ch.address) && c08ObjTyped(s, *ch.address)
+//@ requires c08RecOK(s, c08Obj(s, *ch.address)) && c08Counted(c08Stat(s), c08Obj(s, *ch.address))
+//@ let val = c08Obj(s, *ch.address)
+//@ let k0 = c08K(c08Stat(s), 0)
+//@ let k1 = c08K(c08Stat(s), 1)
+//@ let k2 = c08K(c08Stat(s), 2)
+//@ let r1 = c08R(c08Stat(s), 1)
+//@ let r2 = c08R(c08Stat(s), 2)
+//@ let r3 = c08R(c08Stat(s), 3)
+//@ modifies s.validatorsStatModified, s.validatorObjects, mapof(s.validatorObjects.dirty), s.validatorIndex.data, mapof(s.validatorIndex.data.dirty),
+//@     big(k0.onlineStake), big(k0.onlineToken), k0.onlineCount, big(k0.offlineStake), big(k0.offlineToken), k0.offlineCount,
+//@     big(k1.onlineStake), big(k1.onlineToken), k1.onlineCount, big(k1.offlineStake), big(k1.offlineToken), k1.offlineCount,
+//@     big(k2.onlineStake), big(k2.onlineToken), k2.onlineCount, big(k2.offlineStake), big(k2.offlineToken), k2.offlineCount,
+//@     big(r1.onlineStake), big(r1.onlineToken), r1.onlineCount, big(r1.offlineStake), big(r1.offlineToken), r1.offlineCount,
+//@     big(r2.onlineStake), big(r2.onlineToken), r2.onlineCount, big(r2.offlineStake), big(r2.offlineToken), r2.offlineCount,
+//@     big(r3.onlineStake), big(r3.onlineToken), r3.onlineCount, big(r3.offlineStake), big(r3.offlineToken), r3.offlineCount
+//@ ensures [kind-all]      c08Tot(k0) == c08Sub(old(c08Tot(k0)), old(c08InKind(val, params.KindValidator)))
+//@ ensures [kind-chamber]  c08Tot(k1) == c08Sub(old(c08Tot(k1)), old(c08InKind(val, params.KindChamber)))
+//@ ensures [kind-house]    c08Tot(k2) == c08Sub(old(c08Tot(k2)), old(c08InKind(val, params.KindHouse)))
+//@ ensures [role-chancellor] c08Tot(r1) == c08Sub(old(c08Tot(r1)), old(c08InRole(val, params.RoleChancellor)))
+//@ ensures [role-senator]  c08Tot(r2) == c08Sub(old(c08Tot(r2)), old(c08InRole(val, params.RoleSenator)))
+//@ ensures [role-house]    c08Tot(r3) == c08Sub(old(c08Tot(r3)), old(c08InRole(val, params.RoleHouse)))
+//@ ensures [object-gone]   !c08HasObj(s, *ch.address) && s.validatorObjects.dirty == old(s.validatorObjects.dirty) &&
+//@             mapdom(s.validatorObjects.dirty) == store(old(mapdom(s.validatorObjects.dirty)), box(*ch.address), false)
+//@ ensures [unindexed]     !c08Indexed(s.validatorIndex, *ch.address) && s.validatorIndex.data.dirty == old(s.validatorIndex.data.dirty) &&
+//@             mapdom(s.validatorIndex.data.dirty) == store(old(mapdom(s.validatorIndex.data.dirty)), box(*ch.address), false)
+
+// revert of an update: oldVal is the stored record again and every bucket moves back by contrib(oldVal) - contrib(newVal).
+//@ func (validatorUpdateChange).revert props C08
+//@ panics none
+//@ requires c08StateWF(s) && ch.newVal != nil && ch.oldVal != nil && c08RecOK(s, ch.newVal) && c08RecOK(s, ch.oldVal) && c08Counted(c08Stat(s), ch.newVal)
+//@ let newVal = ch.newVal
+//@ let oldVal = ch.oldVal
+//@ let k0 = c08K(c08Stat(s), 0)
+//@ let k1 = c08K(c08Stat(s), 1)
+//@ let k2 = c08K(c08Stat(s), 2)
+//@ let r1 = c08R(c08Stat(s), 1)
+//@ let r2 = c08R(c08Stat(s), 2)
+//@ let r3 = c08R(c08Stat(s), 3)
+//@ modifies s.validatorsStatModified, oldVal.consAddr,
+//@     s.validatorObjects, mapof(s.validatorObjects.dirty), s.validatorIndex.data, mapof(s.validatorIndex.data.dirty),
+//@     big(k0.onlineStake), big(k0.onlineToken), k0.onlineCount, big(k0.offlineStake), big(k0.offlineToken), k0.offlineCount,
+//@     big(k1.onlineStake), big(k1.onlineToken), k1.onlineCount, big(k1.offlineStake), big(k1.offlineToken), k1.offlineCount,
+//@     big(k2.onlineStake), big(k2.onlineToken), k2.onlineCount, big(k2.offlineStake), big(k2.offlineToken), k2.offlineCount,
+//@     big(r1.onlineStake), big(r1.onlineToken), r1.onlineCount, big(r1.offlineStake), big(r1.offlineToken), r1.offlineCount,
+//@     big(r2.onlineStake), big(r2.onlineToken), r2.onlineCount, big(r2.offlineStake), big(r2.offlineToken), r2.offlineCount,
+//@     big(r3.onlineStake), big(r3.onlineToken), r3.onlineCount, big(r3.offlineStake), big(r3.offlineToken), r3.offlineCount
+//@ ensures [kind-all]      c08Tot(k0) == c08Add(c08Sub(old(c08Tot(k0)), old(c08InKind(newVal, params.KindValidator))), old(c08InKind(oldVal, params.KindValidator)))
+//@ ensures [kind-chamber]  c08Tot(k1) == c08Add(c08Sub(old(c08Tot(k1)), old(c08InKind(newVal, params.KindChamber))), old(c08InKind(oldVal, params.KindChamber)))
+//@ ensures [kind-house]    c08Tot(k2) == c08Add(c08Sub(old(c08Tot(k2)), old(c08InKind(newVal, params.KindHouse))), old(c08InKind(oldVal, params.KindHouse)))
+//@ ensures [role-chancellor] c08Tot(r1) == c08Add(c08Sub(old(c08Tot(r1)), old(c08InRole(newVal, params.RoleChancellor))), old(c08InRole(oldVal, params.RoleChancellor)))
+//@ ensures [role-senator]  c08Tot(r2) == c08Add(c08Sub(old(c08Tot(r2)), old(c08InRole(newVal, params.RoleSenator))), old(c08InRole(oldVal, params.RoleSenator)))
+//@ ensures [role-house]    c08Tot(r3) == c08Add(c08Sub(old(c08Tot(r3)), old(c08InRole(newVal, params.RoleHouse))), old(c08InRole(oldVal, params.RoleHouse)))
+//@ ensures [restored]      c08HasObj(s, c08AddrOf(oldVal)) && c08Obj(s, c08AddrOf(oldVal)) == oldVal && c08Indexed(s.validatorIndex, c08AddrOf(oldVal))
+
+// revert of a removal: the record exists again (not marked deleted) and is counted again.
+// The code only re-stores the pointer: `deleted` stays set and the statistics stay reduced — DESIGN §9 / findings_proposed/C08.json
+// "delete-revert"; proposed repair /verif/proposed_fixes/C08/delete_revert.diff.
+//@ func (validatorDeleteChange).revert props C08
+//@ panics none
+//@ requires c08StateWF(s) && ch.oldVal != nil && c08RecOK(s, ch.oldVal)
+//@ let oldVal = ch.oldVal
+//@ let k0 = c08K(c08Stat(s), 0)
+//@ modifies s.validatorsStatModified, oldVal.consAddr, oldVal.deleted,
+//@     s.validatorObjects, mapof(s.validatorObjects.dirty), s.validatorIndex.data, mapof(s.validatorIndex.data.dirty),
+//@     all(big), all(ValKindStat.onlineCount), all(ValKindStat.offlineCount)
+//@ ensures [restored] c08HasObj(s, c08AddrOf(oldVal)) && c08Obj(s, c08AddrOf(oldVal)) == oldVal && c08Indexed(s.validatorIndex, c08AddrOf(oldVal))
+//@ // PENDING-FINDING: (proposed_fixes/C08/delete_revert.diff) the restored record must exist again and be counted again:
+//@ // ensures [exists-again] !oldVal.deleted
+//@ // ensures [kind-all] c08Tot(k0) == c08Add(old(c08Tot(k0)), old(c08Contrib(oldVal)))
